@@ -629,6 +629,9 @@ class Interp(object):
       if isinstance(x, (SSet, SMap, SSeq)) and \
           not isinstance(y, (Sym, set, frozenset, dict, list, tuple, ObjVal)):
         return False
+      # ... and no int / bool / str / opaque value is a bare `object()` sentinel
+      if isinstance(x, Sym) and not isinstance(x, SOpt) and type(y) is object:
+        return False
     self.unsupported("`is` on symbolic values")
 
   # -- attribute / subscript ---------------------------------------------------------------
@@ -653,6 +656,7 @@ class Interp(object):
     """FuncVal for a real function object defined in a repository file (source re-read)."""
     from .extract import funcdef_for
     node, module = funcdef_for(f)
+    INTERPRETED[f.__module__ + ":" + f.__qualname__] = node
     return FuncVal(node, module, None, f.__qualname__, cls)
 
   def ev_Attribute(self, node, fr):
@@ -906,7 +910,11 @@ class Interp(object):
           fr.aliases[pname] = ("lvalue", cfr, a)
 
   def call_by_contract(self, c, fv, args, kwargs, node):
-    """Modular call: assert requires, assume ensures of the callee's contract."""
+    """Modular call: assert requires, havoc what the callee may modify, assume ensures of the
+    callee's contract.  Frame: the callee may assign the fields of the modelled objects it is
+    given (all fields its contract declares a shape for are havocked, in place - the caller's
+    references see the new state); old(...) in its ensures is the state at the call."""
+    from .contract import _snapshot
     fr = Frame(fv, self)
     fr.bind_args(fv.node.args, args, kwargs, self, node)
     env = dict(fr.env)
@@ -915,11 +923,26 @@ class Interp(object):
       self.ctx.oblige("%s.pre.%s@%s" % (self.contract.prefix if self.contract else "", name,
                                          fv.qualname), self._bt(g), "call-pre",
                       getattr(node, "lineno", None))
+    old_env = {k: _snapshot(v) for k, v in env.items()}
+    def havoc(obj, shape, tag):
+      for f, fsh in shape.fields.items():
+        cur = obj.fields.get(f)
+        if isinstance(fsh, V.Obj) and isinstance(cur, ObjVal):
+          havoc(cur, fsh, "%s_%s" % (tag, f))
+        else:
+          self.check_loop_frame("%s.%s" % (obj.cls_name, f), obj=obj)
+          obj.fields[f] = self.ctx.fresh(fsh, "%s_%s_after_%s" % (tag, f, fv.qualname.replace(".", "_")))
+    for pname, shape in c.params.items():
+      v = env.get(pname)
+      if isinstance(shape, V.Obj) and isinstance(v, ObjVal):
+        havoc(v, shape, pname)
+      elif isinstance(v, (SSet, SMap, SSeq)) and pname in getattr(c, "modifies", ()):
+        self.unsupported("modular call of %s: a container passed by reference is modified" % fv.qualname, node)
     res = self.ctx.fresh(c.returns, "ret_" + fv.qualname.replace(".", "_")) \
         if c.returns is not None else None
     env2 = dict(env); env2["result"] = res
     for name, clause in c.ensures.items():
-      self.ctx.assume(self._bt(self.eval_spec(clause, env2, old_env=env)))
+      self.ctx.assume(self._bt(self.eval_spec(clause, env2, old_env=old_env)))
     self.ctx.assumed_contracts.add("contract:" + fv.qualname)
     return res
 
@@ -1422,7 +1445,7 @@ class Interp(object):
     choice = ctx.fork(2)
     pre_objs = self._reachable_objs(fr.flat_env().values())
     pre_names = set(fr.env)
-    modified = _assigned_names(node.body) | set(ghost_vars)
+    modified = _assigned_names(node.body) | set(ghost_vars) | set(spec.locals)
     if isinstance(node, ast.For): modified |= _target_names(node.target)
     if it is not None and idx_name: modified.discard(idx_name)
     for name in sorted(modified):
@@ -1542,6 +1565,11 @@ class ExcVal(object):
 
 class StarArgs(object):
   def __init__(self, v): self.v = v
+
+
+# every real function whose source was interpreted (inlined) since the last reset: the text a proof
+# depends on besides its target function (hashed into the evidence / the proved baseline)
+INTERPRETED = {}
 
 
 class MethodRef(object):
